@@ -18,6 +18,9 @@ type ChunkReader struct {
 	Limit  int // if > 0: panic with StepLimit after this many Read calls
 	AtEOF  int // number of Read calls answered with io.EOF
 	OnRead func(off int)
+	// EOFWithData: the read that hands out the last bytes returns them together with io.EOF, as the io.Reader
+	// contract allows (crypto/tls does so when the peer's close_notify is already buffered behind the data)
+	EOFWithData bool
 }
 
 // StepLimit is the panic value used when Limit is exceeded.
@@ -67,6 +70,10 @@ func (r *ChunkReader) Read(p []byte) (int, error) {
 	}
 	n := copy(p, r.data[r.off:end])
 	r.off += n
+	if r.EOFWithData && r.off >= len(r.data) {
+		r.AtEOF++
+		return n, io.EOF
+	}
 	return n, nil
 }
 
